@@ -2,8 +2,8 @@
 CliqueColoring: the pair enumeration `combinations(range(1, n+1), 2)` and its identifiers,
 meaning of the clause shapes, the witness assignment.
 -/
-import Lemmas.FamPigeon
-import Lemmas.FamCombos
+import Lemmas.C01Pigeon
+import Lemmas.C01Combos
 import CnfgenModel.Fam.CliqueColoring
 namespace Cnfgen.Fam
 open Cnfgen
